@@ -1,8 +1,8 @@
 /-
   Props.C13 — upsert inserts exactly one well-formed document iff nothing matches.
   Statements only; proofs in Proofs/C13*.lean.  Model: the upsert path of `applyUpdateColl`
-  (Store.lean), `expandDots` / `discardOps` (Update.lean).  `c1` is the collection the expiry
-  pass leaves, `sel` the documents the filter selects.
+  (Store.lean), `upsertSeed` = `discardOps`, then `expandDots` (Update.lean).  `c1` is the
+  collection the expiry pass leaves, `sel` the documents the filter selects.
 -/
 import Proofs.C13
 import Proofs.C13ExtSeed
@@ -13,6 +13,18 @@ import Proofs.C13ExtPaths
 
 namespace MongoModel.Props.C13
 open MongoModel MongoModel.Spec
+
+/-- a model call gave this value (structural equality) -/
+private def gives (r : R Val) (v : Val) : Bool :=
+  match r with
+  | .ok x => x == v
+  | .error _ => false
+
+/-- a model call raised the WriteError -/
+private def raisesWriteError (r : R Val) : Bool :=
+  match r with
+  | .error .writeErr => true
+  | _ => false
 
 /-- When something matches, `upsert=True` changes nothing: the call is the same call without
     upsert (same result, same collection). -/
@@ -58,30 +70,39 @@ theorem upsert_iff_no_match (cfg : Cfg) (now : Int) (c c1 c' : Coll) (fs : Field
   Proofs.C13.upsert_iff_no_match cfg now c c1 c' fs u multi sel r he hne hn hi hg hs h
 
 /-- The reported result of an upsert: matched_count 0 and the stored `_id` as upserted_id
-    (`updateOut` is what `UpdateResult` shows; a null `_id` cannot be told from "no upsert"). -/
-theorem upsert_result (r : UpdateResult) (id : Val) (h : r.upserted = some id) (hn : id ≠ .null) :
+    (`updateOut` is what `UpdateResult` shows) — whatever the `_id`, null included.  (Repaired
+    defect `upsert-null-id-matched`: an upsert storing `_id: null` used to report matched_count 1.) -/
+theorem upsert_result (r : UpdateResult) (id : Val) (h : r.upserted = some id) :
     updateOut r = .doc [("matched", .int 0), ("modified", .int r.nModified), ("upserted", id)] :=
-  Proofs.C13.upsert_result r id h hn
+  Proofs.C13.upsert_result r id h
 
-/-- **The seed**: an equality condition on a plain (undotted) field puts that value into the
-    seed, an operator condition contributes nothing, `$eq` contributes its operand. -/
+/-- non-vacuity: an upsert whose filter gives `_id: null` stores that `_id` and reports
+    matched_count 0 -/
+example : (match applyUpdateColl {} 0 Proofs.C13.exColl (.doc [("_id", .null), ("a", .int 7)])
+      (.doc [("$set", .doc [("b", .int 2)])]) true false with
+    | (c', .ok r) => r.upserted == some .null && c'.docs.length == 2 &&
+        updateOut r == .doc [("matched", .int 0), ("modified", .int 0), ("upserted", .null)]
+    | _ => false) = true := by decide +kernel
+
+/-- **The seed**: `_discard_operators` keeps the equality conditions of the filter
+    (`Spec.equalities`): an equality condition on a plain (undotted) field puts that value into
+    the seed, an operator condition contributes nothing, `$eq` contributes its operand; and
+    `_expand_dots` leaves such conditions as they are. -/
 theorem seed_plain_equalities (ss : Fields) (hk : ss.all (fun kv => !kv.1.toList.contains '.' && !kv.1.startsWith "$") = true)
     (hd : (dkeys ss).Nodup) :
-    expandDots ss = .ok ss ∧
-    (∀ k v, dget k ss = some v → isScalar v = true →
-        dget k (match (discardOps (.doc ss)).1 with | .doc fs => fs | _ => []) = some v) ∧
+    expandDots (equalities ss) = .ok (equalities ss) ∧
+    (∀ k v, dget k ss = some v → isScalar v = true → dget k (equalities ss) = some v) ∧
     (∀ k ops, dget k ss = some (.doc ops) → isOps ops = true → dget "$eq" ops = none →
-        dget k (match (discardOps (.doc ss)).1 with | .doc fs => fs | _ => []) = none) ∧
-    (∀ k x, dget k ss = some (.doc [("$eq", x)]) →
-        dget k (match (discardOps (.doc ss)).1 with | .doc fs => fs | _ => []) = some x) :=
+        dget k (equalities ss) = none) ∧
+    (∀ k x, dget k ss = some (.doc [("$eq", x)]) → dget k (equalities ss) = some x) :=
   Proofs.C13.seed_plain_equalities ss hk hd
 
-/-- A dotted equality condition is expanded into nested sub-documents. -/
+/-- A dotted equality condition is expanded into nested sub-documents (any component may be the
+    empty field name). -/
 theorem seed_expands_dots (a b : String) (v : Val)
-    (ha : a.toList.contains '.' = false) (hb : b.toList.contains '.' = false)
-    (hna : a ≠ "") (hnb : b ≠ "") :
+    (ha : a.toList.contains '.' = false) (hb : b.toList.contains '.' = false) :
     expandDots [(a ++ "." ++ b, v)] = .ok [(a, .doc [(b, v)])] :=
-  Proofs.C13.seed_expands_dots a b v ha hb hna hnb
+  Proofs.C13.seed_expands_dots a b v ha hb
 
 /-- `$setOnInsert` is applied only when inserting. -/
 theorem setOnInsert_only_on_insert (spec now body : Val) (d : Val) :
@@ -124,14 +145,16 @@ example : (match applyUpdateColl {} 0 Proofs.C13.exColl (.doc [("a", .int 1)])
 example : let ss : Fields := [("a", .int 2), ("b", .doc [("$gt", .int 5)]), ("c", .doc [("$eq", .int 7)])]
     (ss.all (fun kv => !kv.1.toList.contains '.' && !kv.1.startsWith "$") &&
       decide ((dkeys ss).Nodup) &&
-      (discardOps (.doc ss)).1 == .doc [("a", .int 2), ("c", .int 7)]) = true := by decide +kernel
+      (equalities ss == [("a", .int 2), ("c", .int 7)]) &&
+      (match expandDots (equalities ss) with | .ok ex => ex == equalities ss | _ => false)) = true := by
+  decide +kernel
 
 /-! ## Extension: the last clause of C13 — "when the filter consists of equality conditions that
     the update does not overwrite, the new document is matched by that same filter afterwards" —
     and which `_id` the new document gets.
 
-    Shapes (Spec/UpsertExt.lean): `plainEqualities ss` = every key of the filter is a non-empty
-    top-level field name (no dot, no leading `$`) and every value a scalar; `plainKeys ss` = the
+    Shapes (Spec/UpsertExt.lean): `plainEqualities ss` = every key of the filter is a top-level
+    field name (no dot, no leading `$`; the empty name included) and every value a scalar; `plainKeys ss` = the
     same on the keys only (any conditions); `isOperatorUpdate` / `isReplacement` / `leavesId`
     for the update; `HoldsAll ss fs` = the document `fs` holds `k: v` for every `(k, v)` of `ss`. -/
 
@@ -142,40 +165,42 @@ theorem holds_all_matches (ss fs : Fields) (hk : plainEqualities ss = true) (hf 
     filterApplies (.doc ss) (.doc fs) = .ok true :=
   Proofs.C13Ext.holds_matches ss fs hk hf
 
-/-- The natural statement — scalar equality conditions on undotted, non-`$` keys — WITHOUT the
-    requirement that the keys are non-empty. -/
-def seed_matches_filter_full : Prop :=
-  ∀ ss : Fields,
-    ss.all (fun kv => !kv.1.toList.contains '.' && !kv.1.startsWith "$" && isScalar kv.2) = true →
-    (dkeys ss).Nodup → filterApplies (.doc ss) (discardOps (.doc ss)).1 = .ok true
+/-- **The seed satisfies its filter.**  For a filter of plain equality conditions with pairwise
+    distinct keys — the empty field name included — and whatever `_id` the upsert path chooses
+    (the filter's own when it has one, else any value: generated, or taken from the update), the
+    seed `upsertSeed` builds exists and is matched by the filter.  (Repaired defect
+    `upsert-empty-key`: the matcher used to read the key `""` as "the document itself", so the seed
+    of `{"": 2}` was not matched and repeating the call inserted again; the statement used to carry
+    "keys non-empty" and a `_full_fails` companion.) -/
+theorem seed_matches_filter (ss : Fields) (hk : plainEqualities ss = true) (hd : (dkeys ss).Nodup)
+    (idv : Val) (hid : ∀ v, dget "_id" ss = some v → idv = v) :
+    ∃ sf, upsertSeed ss idv = .ok (.doc sf) ∧ HoldsAll ss sf ∧
+      filterApplies (.doc ss) (.doc sf) = .ok true :=
+  Proofs.C13Ext.seed_matches_filter ss hk hd idv hid
 
-/-- The former counterexample (`seed_matches_filter_full_fails`, finding `upsert-empty-key`: for the
-    filter `{"": 2}` the seed is `{"": 2}`, and the matcher read the empty key as "the document
-    itself") is gone from the Filter model: since the library repair "a filter looks the empty
-    field name up like any other field" the seed is matched.  [Minimal edit forced by the C01
-    follow-up of that repair; strengthening `seed_matches_filter_partial` to the full statement is
-    left to the follower of C13.] -/
-example : filterApplies (.doc [("", .int 2)]) (discardOps (.doc [("", .int 2)])).1 = .ok true := by
-  decide +kernel
-
-/-- **The seed satisfies its filter** (partial: keys non-empty).  For a filter of plain equality
-    conditions with pairwise distinct keys, `expandDots` leaves the filter as it is, and the seed
-    `discardOps` builds from it is matched by the filter — the seed proper, and the seed built
-    after an `_id` (any value: generated, or taken from the update) was added to a filter that has
-    none, which is what the upsert path does. -/
-theorem seed_matches_filter_partial (ss : Fields) (hk : plainEqualities ss = true) (hd : (dkeys ss).Nodup) :
-    expandDots ss = .ok ss ∧
-    filterApplies (.doc ss) (discardOps (.doc ss)).1 = .ok true ∧
-    (∀ idv, dget "_id" ss = none →
-      expandDots (dset "_id" idv ss) = .ok (dset "_id" idv ss) ∧
-      filterApplies (.doc ss) (discardOps (.doc (dset "_id" idv ss))).1 = .ok true) :=
-  Proofs.C13Ext.seed_matches_filter ss hk hd
+/-- the witness of the repaired defect `upsert-empty-key`: the filter `{"": 2}` satisfies the
+    hypotheses, its seed is `{"": 2, _id: …}` and is matched; on the collection of the witness the
+    upsert inserts, the filter then selects exactly the new document, and a second identical call
+    matches it instead of inserting again -/
+example : let ss : Fields := [("", .int 2)]
+    (plainEqualities ss && decide ((dkeys ss).Nodup) &&
+      (match upsertSeed ss (.oid 7) with
+       | .ok seed => seed == .doc [("", .int 2), ("_id", .oid 7)] &&
+           filterApplies (.doc ss) seed == .ok true
+       | _ => false) &&
+      (match applyUpdateColl {} 0 Proofs.C13.exColl (.doc ss) (.doc [("$set", .doc [("e", .int 9)])]) true false with
+       | (c', .ok r) => r.upserted.isSome && c'.docs.length == 2 &&
+           (selectDocs (.doc ss) c'.docs).toOption.map (·.length) == some 1 &&
+           (match applyUpdateColl {} 0 c' (.doc ss) (.doc [("$set", .doc [("e", .int 9)])]) true false with
+            | (c'', .ok r') => r'.upserted.isNone && r'.n == 1 && c''.docs.length == 2
+            | _ => false)
+       | _ => false)) = true := by decide +kernel
 
 /-- non-vacuity: a three-condition filter (a number, `null`, an aware datetime) is a plain-equality
-    filter with distinct keys; its seed is the filter itself -/
+    filter with distinct keys; its seed is the filter itself with the chosen `_id` -/
 example : let ss : Fields := [("a", .int 2), ("b", .null), ("c", .date 1500 (some 60))]
     (plainEqualities ss && decide ((dkeys ss).Nodup) &&
-      (discardOps (.doc ss)).1 == .doc ss) = true := by decide +kernel
+      gives (upsertSeed ss (.int 5)) (.doc (ss ++ [("_id", .int 5)]))) = true := by decide +kernel
 
 /-- **The clause itself.**  Filter `ss`: plain equality conditions, distinct keys.  Update `ufs`:
     an operator update none of whose paths starts at a key of the filter (`Spec.addressed`; it MAY
@@ -324,52 +349,110 @@ example :
 example : (exUpsertedId (.doc [("a", .int 5)]) (.doc [("$unset", .doc [("_id", .int 1)])])
     == some (.oid (Proofs.C13.exColl.nextOid + 1))) = true := by decide +kernel
 
-/-! ## Extension: the seed of ANY filter whose keys do not conflict (generalises
-    `seed_plain_equalities` and `seed_expands_dots` to dotted paths of any depth).
+/-! ## Extension: the seed of ANY filter (generalises `seed_plain_equalities` and
+    `seed_expands_dots` to dotted paths of any depth), and when it cannot be built.
 
-    `prefixFree ss`: no key is a dotted prefix of (or equal to) another; `noDollarParts ss`: no
-    component of a key is an operator (so no top-level `$and` / `$or`); `getPath`: reading a dotted
-    path (Spec/UpdateSpec.lean).  The success of `expandDots` is a hypothesis: it is what the
-    upsert path needs anyway (the examples show it holds on conflict-free filters). -/
+    `equalities ss` = what `_discard_operators` keeps of the filter; `prefixFree eqs`: no key is a
+    dotted prefix of (or equal to) another; `noDollarKeys ss`: no top-level key is an operator (so
+    no `$and` / `$or`); `getPath`: reading a dotted path (Spec/UpdateSpec.lean).
 
-/-- **The seed at every path.**  When `_expand_dots` succeeds on a filter with prefix-free keys
-    without operator components, the expanded filter holds at the path of every item its
-    condition, and the seed holds there what `_discard_operators` leaves of that condition
-    (nothing when it is dropped). -/
-theorem seed_at_paths (ss ex : Fields) (h : expandDots ss = .ok ex) (hp : prefixFree ss)
-    (hnd : noDollarParts ss = true) :
-    (∀ kv ∈ ss, getPath (splitDots kv.1) (.doc ex) = some kv.2) ∧
-    (∀ kv ∈ ss, getPath (splitDots kv.1) (discardOps (.doc ex)).1 =
-        if (discardOps kv.2).2 then none else some (discardOps kv.2).1) :=
-  Proofs.C13Ext.seed_paths ss ex h hp hnd
+    Repaired defect `upsert-op-under-eq`: `_expand_dots` used to run BEFORE `_discard_operators`,
+    so an operator condition below an equality (`{b: {}, "b.k": {$gt: 1}}`) was merged into the
+    equality's value and took it away; the statements below used to ASSUME `prefixFree` of the whole
+    filter.  Now only the equality conditions are expanded, and prefix-freeness of those is what
+    the code enforces: the expansion succeeds exactly then (`seed_conflict_iff`). -/
+
+/-- **`_expand_dots` succeeds exactly on prefix-free keys**, and raises the WriteError 'cannot
+    infer query fields to set' on every other set of conditions (a key stated twice, a key that is
+    a dotted prefix of another one, in either order, whatever the values). -/
+theorem seed_conflict_iff (eqs : Fields) :
+    ((∃ ex, expandDots eqs = .ok ex) ↔ prefixFree eqs) ∧
+    (¬ prefixFree eqs → expandDots eqs = .error .writeErr) :=
+  ⟨Proofs.C13Ext.expand_ok_iff eqs, Proofs.C13Ext.expand_conflict eqs⟩
+
+/-- … for the upsert: the seed of a filter (with the chosen `_id`) can be built exactly when no
+    EQUALITY condition lies at or below another one — operator conditions do not count — and
+    otherwise the upsert raises that WriteError. -/
+theorem upsert_seed_conflict (ss : Fields) (idv : Val)
+    (hnd : noDollarKeys (dset "_id" idv ss) = true) :
+    ((∃ seed, upsertSeed ss idv = .ok seed) ↔ prefixFree (equalities (dset "_id" idv ss))) ∧
+    (¬ prefixFree (equalities (dset "_id" idv ss)) → upsertSeed ss idv = .error .writeErr) :=
+  Proofs.C13Ext.upsertSeed_conflict ss idv hnd
+
+/-- **The seed at every path.**  When the equality conditions of a filter (distinct keys, no
+    top-level operator) expand, they are prefix-free, the seed holds at the path of every condition
+    that is not dropped what `_discard_operators` leaves of it, and at the path of a dropped
+    (operator) condition it holds nothing — unless an equality condition lies at, above or below
+    that path. -/
+theorem seed_at_paths (ss ex : Fields) (hnd : noDollarKeys ss = true) (hk : (dkeys ss).Nodup)
+    (h : expandDots (equalities ss) = .ok ex) :
+    prefixFree (equalities ss) ∧
+    (∀ kv ∈ ss, (discardOps kv.2).2 = false →
+        getPath (splitDots kv.1) (.doc ex) = some (discardOps kv.2).1) ∧
+    (∀ kv ∈ ss, (discardOps kv.2).2 = true →
+        (∀ kv' ∈ ss, (discardOps kv'.2).2 = false →
+          ¬ splitDots kv'.1 <+: splitDots kv.1 ∧ ¬ splitDots kv.1 <+: splitDots kv'.1) →
+        getPath (splitDots kv.1) (.doc ex) = none) :=
+  Proofs.C13Ext.seed_paths ss ex hnd hk h
 
 /-- … in particular: an equality condition `p: v` (scalar `v`) puts `v` at the path `p`, `p: {$eq:
-    x}` puts `x` there, and an operator condition leaves nothing at its path. -/
-theorem seed_at_paths_cases (ss ex : Fields) (h : expandDots ss = .ok ex) (hp : prefixFree ss)
-    (hnd : noDollarParts ss = true) :
-    (∀ k v, (k, v) ∈ ss → isScalar v = true →
-        getPath (splitDots k) (discardOps (.doc ex)).1 = some v) ∧
-    (∀ k x, (k, Val.doc [("$eq", x)]) ∈ ss →
-        getPath (splitDots k) (discardOps (.doc ex)).1 = some x) ∧
+    x}` puts `x` there, and an operator condition leaves nothing at its path (when no equality
+    condition reaches there). -/
+theorem seed_at_paths_cases (ss ex : Fields) (hnd : noDollarKeys ss = true) (hk : (dkeys ss).Nodup)
+    (h : expandDots (equalities ss) = .ok ex) :
+    (∀ k v, (k, v) ∈ ss → isScalar v = true → getPath (splitDots k) (.doc ex) = some v) ∧
+    (∀ k x, (k, Val.doc [("$eq", x)]) ∈ ss → getPath (splitDots k) (.doc ex) = some x) ∧
     (∀ k ops, (k, Val.doc ops) ∈ ss → isOps ops = true → dget "$eq" ops = none →
-        getPath (splitDots k) (discardOps (.doc ex)).1 = none) :=
-  Proofs.C13Ext.seed_paths_cases ss ex h hp hnd
+        (∀ kv' ∈ ss, (discardOps kv'.2).2 = false →
+          ¬ splitDots kv'.1 <+: splitDots k ∧ ¬ splitDots k <+: splitDots kv'.1) →
+        getPath (splitDots k) (.doc ex) = none) :=
+  Proofs.C13Ext.seed_paths_cases ss ex hnd hk h
+
+/-- … and the seed of the upsert is that expansion (the filter with the chosen `_id`). -/
+theorem upsert_seed_is_expansion (ss : Fields) (idv : Val)
+    (hnd : noDollarKeys (dset "_id" idv ss) = true) :
+    upsertSeed ss idv = (expandDots (equalities (dset "_id" idv ss))).map Val.doc :=
+  Proofs.C13Ext.upsertSeed_eq ss idv hnd
 
 /-- non-vacuity: a filter with paths of depth 3, 2, 1, an operator condition and an `$eq`, sharing
-    prefixes, is prefix-free without operator components, expands, and its seed is as stated -/
+    prefixes, has distinct keys and no top-level operator; its equality conditions are
+    prefix-free, expand, and the seed is as stated -/
 example : let ss : Fields := [("a.b.c", .int 1), ("a.b.d", .doc [("$gt", .int 2)]), ("a.e", .str "x"),
       ("f", .doc [("$eq", .int 4)]), ("g.h", .doc [("$in", .arr [.int 1])])]
-    (decide (prefixFree ss) && noDollarParts ss &&
-      (match expandDots ss with
-       | .ok ex => (discardOps (.doc ex)).1 == .doc [("a", .doc [("b", .doc [("c", .int 1)]), ("e", .str "x")]),
-            ("f", .int 4)]
+    (noDollarKeys ss && decide ((dkeys ss).Nodup) && decide (prefixFree (equalities ss)) &&
+      (equalities ss == [("a.b.c", .int 1), ("a.e", .str "x"), ("f", .int 4)]) &&
+      (match expandDots (equalities ss) with
+       | .ok ex => ex == [("a", .doc [("b", .doc [("c", .int 1)]), ("e", .str "x")]), ("f", .int 4)]
        | _ => false)) = true := by decide +kernel
 
-/-- the prefix condition is needed: `{a: {c: 2}, "a.b": 1}` expands without error, but the second
-    item is written INTO the sub-document of the first, which no longer holds its own condition -/
-example : (decide (prefixFree [("a", .doc [("c", .int 2)]), ("a.b", .int 1)]) == false &&
-    (match expandDots [("a", .doc [("c", .int 2)]), ("a.b", .int 1)] with
-     | .ok ex => getPath ["a"] (.doc ex) == some (.doc [("c", .int 2), ("b", .int 1)])
-     | _ => false)) = true := by decide +kernel
+/-- the witness of the repaired defect `upsert-op-under-eq`: in `{b: {}, "b.k": {$gt: 1}}` the
+    operator condition is dropped BEFORE the expansion, so the equality `b: {}` is the only
+    condition left, nothing conflicts, and the seed holds `b: {}` (it used to lose `b`) — in either
+    key order, and also over a scalar value -/
+example :
+    (gives (upsertSeed [("b", .doc []), ("b.k", .doc [("$gt", .int 1)])] (.oid 7))
+        (.doc [("b", .doc []), ("_id", .oid 7)]) &&
+     gives (upsertSeed [("b.k", .doc [("$gt", .int 1)]), ("b", .doc [])] (.oid 7))
+        (.doc [("b", .doc []), ("_id", .oid 7)]) &&
+     gives (upsertSeed [("b", .int 3), ("b.k", .doc [("$gt", .int 1)])] (.oid 7))
+        (.doc [("b", .int 3), ("_id", .oid 7)]) &&
+     (match applyUpdateColl {} 0 Proofs.C13.exColl
+          (.doc [("b", .doc []), ("b.k", .doc [("$gt", .int 1)])]) (.doc [("$set", .doc [("n", .int 1)])]) true false with
+      | (c', .ok r) => r.upserted.isSome &&
+          (c'.docs.map (·.2))[1]? == some (.doc [("b", .doc []), ("_id", .oid 1000), ("n", .int 1)])
+      | _ => false)) = true := by decide +kernel
+
+/-- what the code enforces: an EQUALITY below another one is a conflict, in either order and
+    whatever the upper value is (it used to be merged into a sub-document given as the value); so
+    is an `_id.x` condition next to an `_id` (given or generated) -/
+example :
+    (decide (prefixFree [("a", .doc [("c", .int 2)]), ("a.b", .int 1)]) == false &&
+     raisesWriteError (upsertSeed [("a", .doc [("c", .int 2)]), ("a.b", .int 1)] (.oid 7)) &&
+     raisesWriteError (upsertSeed [("a.b", .int 1), ("a", .doc [("c", .int 2)])] (.oid 7)) &&
+     raisesWriteError (upsertSeed [("a", .int 5), ("a.b", .int 1)] (.oid 7)) &&
+     raisesWriteError (upsertSeed [("a.b", .doc [("$eq", .int 1)]), ("a.b.c", .int 1)] (.oid 7)) &&
+     raisesWriteError (upsertSeed [("_id.k", .int 1)] (.oid 7)) &&
+     raisesWriteError (upsertSeed [("_id", .doc [("j", .int 1)]), ("_id.k", .int 1)] (.doc [("j", .int 1)])))
+    = true := by decide +kernel
 
 end MongoModel.Props.C13
